@@ -415,3 +415,188 @@ Section DocSetsBack.
         rewrite (xg_from_ast_inline s q' c0 dirs0 asub Hc) in Ex. discriminate.
   Qed.
 End DocSetsBack.
+
+Lemma xv_all3_some_each {A} (f : A -> option bool) l v : xv_all3 f l = Some v -> forall x, In x l -> exists r, f x = Some r.
+Proof.
+  revert v. induction l as [|x0 l IH]; intros v; cbn [xv_all3]; [intros _ ? []|].
+  intros E. destruct (xv_and3_some _ _ _ E) as (r1 & r2 & E1 & E2 & _). intros x [<-|Hx]; [exists r1; exact E1|exact (IH r2 E2 x Hx)].
+Qed.
+
+Lemma xv_all3_all_true {A} (f : A -> option bool) l : (forall x, In x l -> f x = Some true) -> xv_all3 f l = Some true.
+Proof.
+  induction l as [|x0 l IH]; intros H; cbn [xv_all3]; [reflexivity|].
+  rewrite (H x0 (or_introl eq_refl)), IH; [reflexivity|]. intros x Hx. apply H. right. exact Hx.
+Qed.
+
+Section DocEquiv.
+  Variable s : schema.
+  Variable d : document.
+  Hypothesis Hdoc : xg_doc s d.
+  Hypothesis Hnd : NoDup (map fst (xv_frags d)).
+  Hypothesis Hused : xg_used d.
+
+  Notation afrags := (xv_frags d).
+  Notation mfrags := (mx_fragments s (xv_frags d) []).
+  Notation ASS := (xv_all_sel_sets s d).
+  Notation cfuel := (S (length (xv_frags d))).
+  Notation fuel := (xv_merge_fuel d).
+  Notation limit := mx_field_depth_limit.
+
+  (* the specification's rule on one listed selection set *)
+  Definition xd_entry (ps : option str * list selection) : option bool :=
+    match ps with
+    | (Some p, sels) =>
+        match xv_collect cfuel s afrags p sels with
+        | Some fields => xv_can_merge fuel cfuel s afrags fields
+        | None => None
+        end
+    | (None, _) => Some true
+    end.
+
+  Lemma xd_verdict : xv_r_no_fragment_cycles d = true -> xv_merge_verdict s d = xv_all3 xd_entry ASS.
+  Proof. intros H. unfold xv_merge_verdict. rewrite H. reflexivity. Qed.
+
+  Let Hrel : mxb_frags_rel s afrags mfrags := xd_frags_rel s d Hdoc.
+
+  Lemma xd_entry_bridge q' qs : Forall (xg_ok s q') qs ->
+    xd_entry (Some q', qs) =
+    match mxc_collect cfuel mfrags q' (mx_from_ast s q' qs) with
+    | Some L => mxs_can_merge s mfrags fuel cfuel L
+    | None => None
+    end.
+  Proof.
+    intros Hok. destruct (xb_from_ast_list s q' qs (xg_xb_list s q' qs Hok)) as [T O]. cbn [xd_entry].
+    rewrite <- T at 1. rewrite (xvc_bridge s afrags mfrags Hrel cfuel q' _ O).
+    destruct (mxc_collect cfuel mfrags q' (mx_from_ast s q' qs)) as [L|] eqn:Ec; cbn [option_map]; [|reflexivity].
+    apply (xvs_can_merge_bridge s afrags mfrags Hrel). intros f Hf.
+    apply (mxb_coll_fok s afrags mfrags Hrel [(q', mx_from_ast s q' qs)]).
+    - intros ty sels [[= <- <-]|[]]. exact O.
+    - apply (mxc_collect_coll _ _ _ _ _ Ec). exact Hf.
+  Qed.
+
+  Lemma xd_empty_set q' : mxc_collect cfuel mfrags q' (mx_from_ast s q' []) = Some [] /\
+                          mxs_can_merge s mfrags fuel cfuel [] = Some true.
+  Proof. split; reflexivity. Qed.
+
+  (* the fields under an operation are as the other rules leave them *)
+  Lemma xd_good o r : In o (xv_ops d) -> xv_root s (xo_type o) = Some r ->
+    forall f, mxq_hfield mfrags (xd_rootset s o r) f -> mxq_good s f.
+  Proof.
+    intros Ho Er f (ty & sels & Hs & Hf).
+    destruct (xd_hset_in_all s d Hdoc o r Ho Er _ Hs) as (q' & qs & E & (Hok & _ & _)). injection E as -> ->.
+    split; [apply (mxb_fields_fok s q' (mx_from_ast s q' qs) f (mx_from_ast_ok s q' qs) Hf)|].
+    apply mxe_fields_in in Hf. destruct Hf as (a & n & args & dirs & def & sty & sub & Hx & ->).
+    destruct (xg_from_ast_in s q' qs _ Hok Hx) as (x & Hxq & Ex). rewrite Forall_forall in Hok. specialize (Hok x Hxq).
+    destruct x as [a0 n0 args0 dirs0 asub|n0 dirs0|c0 dirs0 asub].
+    - apply xg_ok_field in Hok. destruct Hok as (fd & L & Hc & Ha & Hty & Hl & _).
+      rewrite (xg_from_ast_field s q' a0 n0 args0 dirs0 asub fd L Hl) in Ex. injection Ex as <- <- <- <- <- <- <-.
+      split; [exact Ha|]. split; [exact Hty|exact Hc].
+    - cbn [mx_from_ast_sel] in Ex. discriminate.
+    - apply xg_ok_inline in Hok. destruct Hok as [Hc _]. rewrite (xg_from_ast_inline s q' c0 dirs0 asub Hc) in Ex. discriminate.
+  Qed.
+
+  Section WithVerdict.
+    Variable v : bool.
+    Hypothesis Hacyc : xv_r_no_fragment_cycles d = true.
+    Hypothesis Hv : xv_merge_verdict s d = Some v.          (* the specification's rule does not run out of fuel *)
+
+    Lemma xd_all3 : xv_all3 xd_entry ASS = Some v.
+    Proof. rewrite <- (xd_verdict Hacyc). exact Hv. Qed.
+
+    Lemma xd_defined o r : In o (xv_ops d) -> xv_root s (xo_type o) = Some r ->
+      mxq_spec_defined s mfrags cfuel fuel (xd_rootset s o r).
+    Proof.
+      intros Ho Er st Hs. destruct (xd_hset_in_all s d Hdoc o r Ho Er st Hs) as (q' & qs & -> & (Hok & Hin & _)).
+      cbn [fst snd]. destruct Hin as [->|Hin].
+      - exists [], true. apply xd_empty_set.
+      - destruct (xv_all3_some_each _ _ _ xd_all3 _ Hin) as [r0 E0]. rewrite (xd_entry_bridge q' qs Hok) in E0.
+        destruct (mxc_collect cfuel mfrags q' (mx_from_ast s q' qs)) as [L|]; [|discriminate]. exists L, r0. auto.
+    Qed.
+
+    (* all operations: the rule holds of every selection set under them iff the verdict is true *)
+    Lemma xd_true_iff :
+      (forall o r, In o (xv_ops d) -> xv_root s (xo_type o) = Some r -> mxq_spec_true s mfrags cfuel fuel (xd_rootset s o r))
+      <-> v = true.
+    Proof.
+      split.
+      - intros H. assert (E : xv_all3 xd_entry ASS = Some true); [|rewrite xd_all3 in E; congruence].
+        apply xv_all3_all_true. intros [q qs] Hin.
+        destruct (xd_all_in_hset s d Hdoc Hnd Hused q qs Hin) as (o & r & q' & Ho & Er & -> & Hok & Hs).
+        rewrite (xd_entry_bridge q' qs Hok).
+        destruct (xd_defined o r Ho Er _ Hs) as (L & r0 & Ec & _). cbn [fst snd] in Ec. rewrite Ec.
+        exact (H o r Ho Er _ Hs L Ec).
+      - intros Ev o r Ho Er st Hs L Ec. pose proof xd_all3 as A. rewrite Ev in A.
+        destruct (xd_hset_in_all s d Hdoc o r Ho Er st Hs) as (q' & qs & -> & (Hok & Hin & _)). cbn [fst snd] in Ec.
+        destruct Hin as [->|Hin].
+        + destruct (xd_empty_set q') as [E1 E2]. rewrite E1 in Ec. injection Ec as <-. exact E2.
+        + pose proof (xv_all3_true_inv _ _ A _ Hin) as E0. rewrite (xd_entry_bridge q' qs Hok), Ec in E0. exact E0.
+    Qed.
+
+    Lemma xd_fold ops : incl ops (xv_ops d) -> forall st st',
+      fold_left (mxd_stepn s d) ops (Some st) = Some st' -> (snd st' <= limit)%nat ->
+      (fst st' = true <->
+       fst st = true /\
+       forall o r, In o ops -> xv_root s (xo_type o) = Some r -> mxq_spec_true s mfrags cfuel fuel (xd_rootset s o r)).
+    Proof.
+      induction ops as [|o ops IH]; intros Hincl st st'; cbn [fold_left].
+      - intros [= <-] _. split; [intros H; split; [exact H|intros ? ? []]|intros [H _]; exact H].
+      - assert (Ho : In o (xv_ops d)) by (apply Hincl; left; reflexivity).
+        destruct (proj1 Hdoc o Ho) as (r & Er & _). unfold mxd_stepn at 2. rewrite Er.
+        destruct (mxn_validate_operation s mfrags st (r, mx_from_ast s r (xo_sels o))) as [st1|] eqn:E;
+          [|rewrite mxd_foldn_none; discriminate].
+        intros Ef Hlim. pose proof (mxd_foldn_mono s d ops st1 st' Ef) as Hm.
+        destruct (mxq_operation_equiv s mfrags cfuel fuel (xd_rootset s o r) st st1 (xd_good o r Ho Er) (xd_defined o r Ho Er) E
+                    ltac:(lia)) as [_ Hop].
+        rewrite (IH (fun x Hx => Hincl x (or_intror Hx)) st1 st' Ef Hlim), Hop. split.
+        + intros [[H1 H2] H3]. split; [exact H1|]. intros o' r' [<-|Ho'] Er'.
+          * rewrite Er in Er'. injection Er' as <-. exact H2.
+          * exact (H3 o' r' Ho' Er').
+        + intros [H1 H2]. split; [split; [exact H1|exact (H2 o r (or_introl eq_refl) Er)]|].
+          intros o' r' Ho' Er'. exact (H2 o' r' (or_intror Ho') Er').
+    Qed.
+
+    (* goal 2, for the document: the walk without memo guards gives the specification's verdict *)
+    Theorem xing_equiv_nomemo_doc b hi : mxn_document s d = Some (b, hi) -> (hi <= limit)%nat -> b = v.
+    Proof.
+      rewrite mxn_document_fold. intros E Hlim.
+      pose proof (xd_fold (xv_ops d) (incl_refl _) mxn_initial (b, hi) E Hlim) as H. cbn [fst mxn_initial] in H.
+      assert (Hb : b = true <-> v = true).
+      { rewrite <- xd_true_iff, H. split.
+        - intros [_ H2] o r Ho Er. exact (H2 o r Ho Er).
+        - intros H2. split; [reflexivity|exact H2]. }
+      clear H E. destruct b; destruct v; try reflexivity; [symmetry|]; apply Hb; reflexivity.
+    Qed.
+  End WithVerdict.
+
+  (* goals 2-4 assembled: the literal algorithm = the specification's rule 5.3.2, for documents as the other rules
+     leave them, on which the specification's evaluation is defined and the walk stays within the depth limit *)
+  Theorem xing_equiv_doc b hi :
+    xv_r_no_fragment_cycles d = true -> xv_merge_out_of_fuel s d = false ->
+    mxn_document s d = Some (b, hi) -> (hi <= limit)%nat ->
+    mx_document_ok s d = Some (xv_r_fields_merge s d).
+  Proof.
+    intros Hacyc Hfuel En Hlim. unfold xv_merge_out_of_fuel in Hfuel. unfold xv_r_fields_merge.
+    destruct (xv_merge_verdict s d) as [v|] eqn:Ev; [|discriminate].
+    rewrite <- (xing_equiv_nomemo_doc v Hacyc Ev b hi En Hlim). exact (mx_document_memo_sound s d b hi En Hlim).
+  Qed.
+End DocEquiv.
+
+(* the walk without guards always returns (its fuel is never exhausted) *)
+Lemma mxn_validate_some s frags st (root : mx_set) : mxn_validate_operation s frags st root <> None.
+Proof.
+  unfold mxn_validate_operation. destruct (mx_expand frags [root]) as [fields|] eqn:Ex; [|exfalso; exact (mx_expand_some _ _ Ex)].
+  rewrite mxn_shape_walk.
+  destruct (mxn_walk mxn_shape_parts (mx_same_output_type_shape s) frags mx_fuel 0 st fields) as [st1|] eqn:E1.
+  - rewrite mxn_parents_walk.
+    destruct (mxn_walk (mxn_parents_parts s) mx_same_name_and_arguments frags mx_fuel 0 st1 fields) as [st2|] eqn:E2; [discriminate|].
+    exfalso. revert E2. apply mxn_walk_some; unfold mx_fuel, mx_field_depth_limit; lia.
+  - exfalso. revert E1. apply mxn_walk_some; unfold mx_fuel, mx_field_depth_limit; lia.
+Qed.
+
+Lemma mxn_document_some s d : mxn_document s d <> None.
+Proof.
+  rewrite mxn_document_fold. generalize mxn_initial. induction (xv_ops d) as [|o ops IH]; intros st; cbn [fold_left]; [discriminate|].
+  unfold mxd_stepn at 2. destruct (xv_root s (xo_type o)) as [root|]; [|apply IH].
+  destruct (mxn_validate_operation s (mx_fragments s (xv_frags d) []) st (root, mx_from_ast s root (xo_sels o))) as [st1|] eqn:E; [apply IH|].
+  exfalso. exact (mxn_validate_some _ _ _ _ E).
+Qed.
